@@ -53,6 +53,15 @@ CHECKS = {
             'run as subprocesses over the option lattice vs the API.',
             'MATLAB concatenation lemma pending the parser model (not yet covered).',
             'Coq proof (file fields) + subprocess/API/model correspondence', '6 C16'),
+    'C05': ('proof', 'Theorem (Props/C05.v) over the model of the MATLAB id allocation walk (Matlab/Ids.v): for every module '
+            'the walk accepts there is one table (id, routine, member) whose ids are 0..n-1; the mexFunction switch is exactly '
+            'its (id, callee) pairs in order, the routines emitted are exactly its (name, member) pairs, and the ids written '
+            'into the .m files with their members are a permutation of its (id, member) pairs - invariant: a reserved up-cast id '
+            'is always followed by its collector. Tie: the real toolbox is generated; every <module>_wrapper(<id> call site '
+            '(file, function, arity), case label and routine definition is extracted and compared with the model; the '
+            'property is also checked directly on the toolbox.',
+            'routine names are compared as (name, id) pairs; injectivity of name_<decimal id> is not proved.',
+            'Coq proof (dispatch-table invariant) + toolbox/model correspondence + direct check', '6 C05'),
     'C13': ('proof', 'Theorems (Props/C13.v): an instantiation is a function of its own argument tuple only (lists are '
             'never read), pointwise image of the product; alpha-invariance on the C02 domain via the substitution spec; '
             'refuted in general by the substring rewrite (recorded). Tie: metamorphic experiments on the implementation '
